@@ -230,7 +230,38 @@ Definition edge_wild_to_node (n : wnode) (e : wedge) : wnode :=
 
 Definition cresult := (list str * option werr * wstate)%type.
 
-(* the loop over the edges of node [id] in calculateNodeWeight...; the recursion into an edge is [rec_edge] *)
+(* one edge of node [id] in the loop of calculateNodeWeight...; the recursion into an edge is [rec_edge] *)
+Definition edge_step (rec_edge : eref -> wstate -> cresult) (id : str) (i : nat) (s : wstate) : cresult :=
+  match edge_at (ws_g s) (id, i) with
+  | None => ([], None, s)
+  | Some e =>
+      match e_weights e with
+      | _ :: _ => ([], None, s)
+      | [] =>
+          let to := node_of (ws_g s) (e_to e) in
+          if is_terminal (n_type to) then
+            let wild := ntype_eqb (n_type to) NWildcard in
+            let label := if wild then drop_last2 (e_to e) else e_to e in
+            let e1 := if wild then add_wild_to_edge label e else e in
+            let s := if wild then upd_node s id (fun n => edge_wild_to_node n e1) else s in
+            ([], None, st_g s (set_edge (ws_g s) (id, i) (edge_with_weights e1 [(label, 1)])))
+          else
+            let '(tc, err, s) := rec_edge (id, i) s in
+            (* calculateEdgeWildcards; addEdgeWildcardsToNode *)
+            let s := upd_edge s (id, i) (fun e =>
+                       match e_wild e, n_wild (node_of (ws_g s) (e_to e)) with
+                       | [], (_ :: _) as nw => edge_with_wild e nw
+                       | _, _ => e
+                       end) in
+            let s := match edge_at (ws_g s) (id, i) with
+                     | Some e' => upd_node s id (fun n => edge_wild_to_node n e')
+                     | None => s
+                     end in
+            (tc, err, s)
+      end
+  end.
+
+(* the loop; then the node's own weights from its edges *)
 Fixpoint edge_loop (rec_edge : eref -> wstate -> cresult) (id : str) (k : nat) (i : nat) (tcs : list str) (s : wstate)
   : cresult :=
   match k with
@@ -242,37 +273,10 @@ Fixpoint edge_loop (rec_edge : eref -> wstate -> cresult) (id : str) (k : nat) (
       | Panic _ => (tcs, Some WOutOfFuel, s)
       end
   | S k' =>
-      match edge_at (ws_g s) (id, i) with
-      | None => edge_loop rec_edge id k' (S i) tcs s
-      | Some e =>
-          match e_weights e with
-          | _ :: _ => edge_loop rec_edge id k' (S i) tcs s
-          | [] =>
-              let to := node_of (ws_g s) (e_to e) in
-              if is_terminal (n_type to) then
-                let wild := ntype_eqb (n_type to) NWildcard in
-                let label := if wild then drop_last2 (e_to e) else e_to e in
-                let e1 := if wild then add_wild_to_edge label e else e in
-                let s := if wild then upd_node s id (fun n => edge_wild_to_node n e1) else s in
-                let s := st_g s (set_edge (ws_g s) (id, i) (edge_with_weights e1 [(label, 1)])) in
-                edge_loop rec_edge id k' (S i) tcs s
-              else
-                let '(tc, err, s) := rec_edge (id, i) s in
-                (* calculateEdgeWildcards; addEdgeWildcardsToNode *)
-                let s := upd_edge s (id, i) (fun e =>
-                           match e_wild e, n_wild (node_of (ws_g s) (e_to e)) with
-                           | [], (_ :: _) as nw => edge_with_wild e nw
-                           | _, _ => e
-                           end) in
-                let s := match edge_at (ws_g s) (id, i) with
-                         | Some e' => upd_node s id (fun n => edge_wild_to_node n e')
-                         | None => s
-                         end in
-                match err with
-                | Some x => (tcs ++ tc, Some x, s)
-                | None => edge_loop rec_edge id k' (S i) (tcs ++ tc) s
-                end
-          end
+      let '(tc, err, s) := edge_step rec_edge id i s in
+      match err with
+      | Some x => (tcs ++ tc, Some x, s)
+      | None => edge_loop rec_edge id k' (S i) (tcs ++ tc) s
       end
   end.
 
